@@ -788,7 +788,14 @@ func (p *Plugin) Do(event *pipeline.Event) pipeline.ActionResult {
 // decodeJson returns buf with the prefixed field names appended: the names point into it,
 // so the caller must keep it as the event's buffer.
 func (p *Plugin) decodeJson(root *insaneJSON.Root, node *insaneJSON.Node, buf []byte) []byte {
-	jsonNodeRaw, err := p.decoder.Decode(node.AsBytes(), root)
+	data := node.AsBytes()
+	if p.config.KeepOrigin {
+		// the json decoder cuts over-long fields in place (json_max_fields_size): the origin that is kept must not be the text it works on
+		l := len(buf)
+		buf = append(buf, data...)
+		data = buf[l:]
+	}
+	jsonNodeRaw, err := p.decoder.Decode(data, root)
 	if p.checkError(err, node) {
 		return buf
 	}
